@@ -274,7 +274,12 @@ REPROJ = [
     # the upstream speaks WMS 1.3.0 and degrees: BBOX in latitude / longitude order, I / J
     ('Gbig/4326<-3857/up130', 'EPSG:4326', 0.05, 'EPSG:3857', [('1.1.1', False), ('1.3.0', False)]),
     ('Gbig/cascade/4326<-3857/up130', 'EPSG:4326', 0.05, 'EPSG:3857', [('1.1.1', False)]),
+    # a source whose coverage is not a rectangle (an L: the upper left quarter of the grid is missing): requests around the
+    # inner corner are put together from tiles some of which do not exist
+    ('Gbig/cov-L/3857', 'EPSG:3857', 1, 'EPSG:3857', [('1.1.1', False), ('1.3.0', False)]),
+    ('Gbig/cov-L/3857<-4326', 'EPSG:3857', 5000, 'EPSG:4326', [('1.1.1', False), ('1.3.0', True)]),
 ]
+COV_L = [(0, 0, 1280, 600), (700, 600, 1280, 1280)]        # (not on tile borders: tiles next to it do not touch it)
 
 
 def _same(x, y):
@@ -288,8 +293,9 @@ def transforms(gsrs, rsrs):
     return (merc_to_deg, deg_to_merc) if rsrs == 'EPSG:3857' else (deg_to_merc, merc_to_deg)
 
 
-def reproj_requests(g, rng, n):
-    """request centres and resolutions in lattice terms: single requests and walks (the same size, moved by a few pixels)"""
+def reproj_requests(g, rng, n, focus=None):
+    """request centres and resolutions in lattice terms: single requests and walks (the same size, moved by a few pixels);
+    focus: a point that half of the requests lie around"""
     out = []
     while len(out) < n:
         lres = rng.choice([20, 25, 40, 30, 60, 80, 15, 20, 40])
@@ -297,6 +303,8 @@ def reproj_requests(g, rng, n):
         k = rng.random()
         lo, hi = (100, 1180) if k < 0.8 else (-60, 1340)           # mostly inside the grid, some across its edges
         cx, cy = rng.uniform(lo, hi), rng.uniform(lo, hi)
+        if focus and rng.random() < 0.5:
+            cx, cy = focus[0] + rng.uniform(-200, 200), focus[1] + rng.uniform(-200, 200)
         out.append((cx, cy, lres, w, h))
         if rng.random() < 0.5:
             for _ in range(rng.randint(1, 4)):                      # a client panning by whole pixels
@@ -411,18 +419,23 @@ def reprojected_phase(ctx):
         kw = {}
         if name.endswith('/up130'):
             kw['upstream_version'] = '1.3.0'
+        exts, focus = [list(g['bbox'])], None
+        if '/cov-L/' in name:
+            kw['source_coverage_union'] = COV_L
+            exts, focus = [list(r) for r in COV_L], (640, 720)
         if '/cascade/' in name:
             kw.update(source_coverage=g['bbox'], extra_conf={'layers': [{'name': 'lay', 'title': 'lay', 'sources': ['up']}]})
         app = L.LatticeApp(g, srs=gsrs, scale=scale, wms_srs=sorted({gsrs, rsrs}), meta_size=(1, 1), featureinfo=True, **kw)
         try:
-            maps = observe_reprojected(app, g, gsrs, rsrs, scale, variants, reproj_requests(g, ctx.rng, n), ctx.rng, problems)
+            maps = observe_reprojected(app, g, gsrs, rsrs, scale, variants, reproj_requests(g, ctx.rng, n, focus), ctx.rng, problems)
             infos = observe_reprojected_infos(app, g, gsrs, rsrs, scale, variants, n, ctx.rng, problems)
         finally:
             app.close()
         d = ctx.sub('tr-' + name.replace('/', '_').replace('<-', '_from_'))
         tf = os.path.join(d, 'cases.json')
         with open(tf, 'w') as f:
-            json.dump({'grid': g, 'ext': list(g['bbox']), 'maps': maps, 'infos': infos}, f)
+            json.dump({'grid': g, 'exts': exts, 'bound': [min(e[0] for e in exts), min(e[1] for e in exts), max(e[2] for e in exts), max(e[3] for e in exts)],
+                       'maps': maps, 'infos': infos}, f)
         mp, cp = tlc.write_mc(d, 'Trace_GeoReproj', 'MC_TGR', {}, spec='TraceSpec')
         r = tlc.run(mp, cp, d, workers=1, coverage=False, env={'TRACE_FILE': tf}, timeout=3000, heap='6g')
         pr = tlc.find_prints(r.out, 'verdict')
